@@ -68,7 +68,7 @@ Example ex_wit_name : name_of xxh64 (wit_build 1 2) 0 = name_of xxh64 (wit_build
 Example ex_wit_bytes : bytes_of xxh64 (wit_build 1 2) 0 <> bytes_of xxh64 (wit_build 2 1) 0. Proof. vm_compute. discriminate. Qed.
 
 (* ---- deepening round ---- *)
-From V Require Import C18.Ingredients C18.DeepProofs C19.SubstProofs.
+From V Require Import C18.Ingredients C18.DeepProofs C18.CleanProofs.
 
 (* a clean text: two keys, the data before the second key ends with a proper beginning of the prefix *)
 Example ex_clean : clean ex_prefix 1 2 [mkPiece [105;40] 1 2; mkPiece [41;59;80;81;117;40] 0 1; mkPiece [41] 0 0].
@@ -108,3 +108,16 @@ Proof.
   - exists (ex_leaf [1;2]%nat [1]). split; [reflexivity|left; reflexivity].
   - exists (ex_leaf [0;1]%nat [2]). split; [reflexivity|left; reflexivity].
 Qed.
+
+(* ---- escapeFinalPath ---- *)
+From V Require Import C18.Escape.
+(* the name dot slash d, quotation mark, q, newline, backslash, -H.js in JavaScript and in CSS *)
+Definition ex_name : bytes := [46;47;100;34;113;10;92;45;72;46;106;115].
+Example ex_escape_js : escape_final_path false ex_name = [46;47;100;92;34;113;92;117;48;48;48;97;92;92;45;72;46;106;115].
+Proof. reflexivity. Qed.
+Example ex_escape_css : escape_final_path true ex_name = [46;47;100;92;34;113;92;97;32;92;92;45;72;46;106;115].
+Proof. reflexivity. Qed.
+Example ex_unescape_js : unescape false (escape_final_path false ex_name) = Some ex_name. Proof. reflexivity. Qed.
+Example ex_unescape_css : unescape true (escape_final_path true ex_name) = Some ex_name. Proof. reflexivity. Qed.
+Example ex_raw_rejected : unescape false ex_name = None. Proof. reflexivity. Qed.
+Example ex_name_bytes : Forall (fun c => 0 <= c < 256) ex_name. Proof. repeat constructor; lia. Qed.
